@@ -264,11 +264,12 @@ TrialBegin(r, e) ==
 NewtonStep(r, e) ==
   /\ Cl("M", "NewtonStep.pc", pc[r] = "InTrial")
   /\ Cl("M", "newton.k", e.k = inner[r].k)
+  /\ PS(<< <<"P:C15", "newton.uses.trial.stepsize", e.trialArgs>> >>)
   /\ Cl("M", "newton.maxk", e.k < (CASE cfg[r].ctl = "Exact" -> 10 [] cfg[r].ctl = "DistRatio" -> 2 [] OTHER -> 1))
   /\ inner' = [inner EXCEPT ![r] = [@ EXCEPT !.k = @ + 1,
                                             !.fault = @ \/ (e.raised \in {"StepSolverError", "EvalError"})]]
   /\ Step
-  /\ UNCHANGED <<viol, pc, cfg, algVars, nnot, post, disp, clk, dlx, path, ptime, bad, orc>>
+  /\ UNCHANGED <<pc, cfg, algVars, nnot, post, disp, clk, dlx, path, ptime, bad, orc>>
 
 (* A factorisation or a solve of the linear solver.                         *)
 Lin(r, e) ==
